@@ -350,6 +350,11 @@ def csv_read_case(draw):
     ncol = draw(st.integers(2, 5))
     nrow = draw(st.integers(2, 6))
     header = draw(st.lists(gen.ident(6), min_size=ncol, max_size=ncol, unique_by=lambda s: s.lower()))
+    if draw(st.integers(0, 3)) == 0:
+        # a column named like a Python keyword is a column like any other ('from', 'class', 'in' are common headers)
+        kw = draw(st.sampled_from(["from", "class", "in", "is", "import", "def", "lambda", "not", "global", "pass"]))
+        if kw not in [h.lower() for h in header]:
+            header[draw(st.integers(0, ncol - 1))] = kw
     # cells may be empty, and so may every cell of a row (",,"): with two or more columns that is still a data row
     rows = [[draw(st.text(SAFE, min_size=draw(st.sampled_from([0, 1, 1])), max_size=8)) for _ in range(ncol)] for _ in range(nrow)]
     for i in draw(st.lists(st.integers(0, nrow - 1), max_size=2)):
